@@ -351,7 +351,7 @@ pub fn property(_tier: Tier) -> PropertyDef {
         level: "exploration",
         rule: "proptest stateful histories (<=80 ops; rosomaxa <=60) over {add, add_all(batch 0-5), on_generation(stats with termination estimate / speed), select, ranked} for Greedy, Elitism(max 1-8) and Rosomaxa(generated node/elite/initial sizes, spread, distribution, rebalance memory, exploration ratio) with harness individuals {id, fitness vector of 1-3 components, weights} under a lexicographic objective; fitness classes: small integers (many ties), near-equal values below the dedup thresholds, mixed. After every op: ranked[0] not worse than the best ever offered (reference model), ranked sorted, size within bound, every ranked/selected/all id was offered, select non-empty when size>0, add flag true when the best strictly improved, phases only forward. Plus: solving a generated problem seeded with a feasible initial solution never returns a worse one. Non-trivial: history with a better-than-best offer after the bound was reached, or an equal-fitness twin of the best, or a batch whose best member comes after an earlier improving member, or a phase switch. Distinct by case hash.",
         assumptions: vec!["rosomaxa initial_size >= 4 (the network constructor needs four initial samples)", "objective is a total preorder on the generated finite fitness values (C09)"],
-        props: vec![Box::new(PopProp { which: 0 }), Box::new(PopProp { which: 1 }), Box::new(PopProp { which: 2 })],
+        props: vec![Box::new(PopProp { which: 0 }), Box::new(PopProp { which: 1 }), Box::new(PopProp { which: 2 }), Box::new(super::seeded::SeededProp)],
         extra: None,
         required_classes: vec![
             "population_greedy.batch_with_later_better_member",
